@@ -423,6 +423,14 @@ func (d *Driver) check(id string) int {
 		nLevels := 0
 		if d.tier == "thorough" && eng.concrete == nil {
 			nLevels = len(spec.Levels)
+			// VERIF_MAX_LEVEL=k stops the deepening after level k (development aid)
+			if v := os.Getenv("VERIF_MAX_LEVEL"); v != "" {
+				k := 0
+				fmt.Sscan(v, &k)
+				if k < nLevels {
+					nLevels = k
+				}
+			}
 		}
 		for level := 0; level <= nLevels; level++ {
 			setBounds(level)
@@ -501,32 +509,41 @@ func (d *Driver) check(id string) int {
 	}
 	type group struct {
 		f        Finding
+		cands    []Finding
 		cexPath  string
 		status   string // confirmed, unconfirmed, known
 		what     string
 		replayed ReplayResult
 	}
 	var groups []*group
-	seen := map[string]bool{}
+	bySig := map[string]*group{}
 	for _, f := range eng.findings {
-		if seen[f.Sig] {
+		if g, ok := bySig[f.Sig]; ok {
+			g.cands = append(g.cands, f)
 			continue
 		}
-		seen[f.Sig] = true
-		groups = append(groups, &group{f: f})
+		g := &group{f: f, cands: []Finding{f}}
+		bySig[f.Sig] = g
+		groups = append(groups, g)
 	}
 	sort.Slice(groups, func(i, j int) bool { return groups[i].f.Sig < groups[j].f.Sig })
 	violations := 0
 	validated := 0
 	var lines []string
 	for i, g := range groups {
-		c := cexOut{Harness: g.f.Harness, Pkg: pkgOf[g.f.Harness], Label: g.f.Label, Kind: g.f.Kind, Where: g.f.Where, Tags: g.f.Tags, Sched: g.f.Sched, Inputs: g.f.Inputs, Bounds: g.f.Bounds}
-		g.cexPath = filepath.Join(cexDir, fmt.Sprintf("%s-%s-%d.json", id, sanitize(g.f.Label), i))
-		cb, _ := json.MarshalIndent(c, "", " ")
-		os.WriteFile(g.cexPath, cb, 0o644)
-		if d.noReplay {
-			g.status = "unreplayed"
-		} else {
+		// several counterexamples may have been recorded for one obligation (label, tags): they are
+		// replayed in turn until one reproduces -- a stub that over-approximates (an uninterpreted
+		// regexp match, say) can make the first model one the real code does not follow
+		for ci, cand := range g.cands {
+			g.f = cand
+			c := cexOut{Harness: g.f.Harness, Pkg: pkgOf[g.f.Harness], Label: g.f.Label, Kind: g.f.Kind, Where: g.f.Where, Tags: g.f.Tags, Sched: g.f.Sched, Inputs: g.f.Inputs, Bounds: g.f.Bounds}
+			g.cexPath = filepath.Join(cexDir, fmt.Sprintf("%s-%s-%d.json", id, sanitize(g.f.Label), i))
+			cb, _ := json.MarshalIndent(c, "", " ")
+			os.WriteFile(g.cexPath, cb, 0o644)
+			if d.noReplay {
+				g.status = "unreplayed"
+				break
+			}
 			isLockset := strings.HasPrefix(g.f.Label, "lock-discipline/")
 			g.replayed = d.replayNative(c.Pkg, g.cexPath, isLockset)
 			switch {
@@ -541,10 +558,11 @@ func (d *Driver) check(id string) int {
 				g.status = "confirmed"
 			default:
 				g.status = "unconfirmed"
-				g.what = fmt.Sprintf("native replay did not fail %q (failed=%v aborted=%q panic=%q)", g.f.Label, g.replayed.Failed, g.replayed.Aborted, g.replayed.Panic)
+				g.what = fmt.Sprintf("native replay did not fail %q (failed=%v aborted=%q panic=%q; %d candidate(s) tried)", g.f.Label, g.replayed.Failed, g.replayed.Aborted, g.replayed.Panic, ci+1)
 			}
 			if g.status == "confirmed" {
 				validated++
+				break
 			}
 		}
 		// known findings
@@ -574,8 +592,8 @@ func (d *Driver) check(id string) int {
 		}
 		sort.Strings(labels)
 		maxW := eng.bounds["witness-replay"]
-		if maxW == 0 {
-			maxW = 1000
+		if maxW == 0 || d.tier == "thorough" {
+			maxW = 1000 // the thorough tier replays every cover witness
 		}
 		noWitness := map[string]bool{}
 		for _, h := range spec.Harnesses {
